@@ -5,10 +5,10 @@ import MlModel.Lemmas.OwnerComposite
 namespace MlModel.OwnerEnv
 open MlModel.Owner
 
-theorem settle_ctl_other (e : Env) (s t : Tid) (i : Bool) (h : t ≠ s) : (settle e s i).ctl t = e.ctl t := by
+theorem settle_ctl_other (e : Env) (s t : Tid) (i : Bool) (r : Option Res) (h : t ≠ s) : (settle e s i r).ctl t = e.ctl t := by
   unfold settle
   split
-  · split <;> simp [upd_other _ _ h]
+  · split <;> (try split) <;> simp [upd_other _ _ h]
   · rfl
 
 @[simp] theorem setCall_ctl (e : Env) (id : Nat) (st : CSt) : (setCall e id st).ctl = e.ctl := rfl
@@ -40,8 +40,8 @@ theorem estep_ctl {e e' : Env} {t : Tid} (h : estep e t = some e') : e'.ctl = e.
 
 theorem ostep_ctl_other {pw : Pid → List Wid} {x x' : X} {s t : Tid} {b : Bool} {f : Env → Env}
     (h : ostep pw x s b f = some x') (ht : t ≠ s) : x'.env.ctl t = (f x.env).ctl t := by
-  obtain ⟨i, hi⟩ := ostep_env h
-  rw [hi, settle_ctl_other _ _ _ _ ht]
+  obtain ⟨i, r, hi⟩ := ostep_env h
+  rw [hi, settle_ctl_other _ _ _ _ _ ht]
 
 theorem startPiece_ctl_other {pw : Pid → List Wid} {x x' : X} {s t : Tid} {op : Op} {f : Env → Env}
     (h : startPiece pw x s op f = some x') (ht : t ≠ s) : x'.env.ctl t = (f x.env).ctl t := by
@@ -105,21 +105,23 @@ theorem start_finalize_cur {pw : Pid → List Wid} {u : Wid → Bool} {c c' : Cf
   · rw [hcur] at hc; simp at hc
 
 theorem ostep_env' {pw : Pid → List Wid} {x x' : X} {t : Tid} {b : Bool} {f : Env → Env}
-    (h : ostep pw x t b f = some x') : x'.env = settle (f x.env) t (x'.base.T t).cur.isNone := by
+    (h : ostep pw x t b f = some x') :
+    x'.env = settle (f x.env) t (x'.base.T t).cur.isNone (x'.base.T t).results.getLast? := by
   unfold ostep at h
   cases hs : step? pw (fun _ => b) x.base t with
   | none => simp [hs] at h
   | some c' => simp [hs] at h; subst h; rfl
 
 /-- `settle` leaves no `fin` behind on an idle thread, and never creates one. -/
-theorem settle_fin {e : Env} {t : Tid} {i : Bool} {p : Pid} {o : Outc} (h : (settle e t i).ctl t = .fin p o) :
-    e.ctl t = .fin p o ∧ i = false := by
+theorem settle_fin {e : Env} {t : Tid} {i : Bool} {r : Option Res} {p : Pid} {o : Outc}
+    (h : (settle e t i r).ctl t = .fin p o) : e.ctl t = .fin p o ∧ i = false := by
   unfold settle at h
   cases i with
   | false => simpa using h
   | true =>
     simp only [if_true] at h
     cases hc : e.ctl t <;> simp [hc] at h
+    split at h <;> simp [hc] at h
 
 /-- After an `Owner` step of `t` its controller is `fin p o` only if the update `f` left it so and the thread is still
 inside a method. -/
